@@ -963,7 +963,15 @@ fn orchestrate(check: &dyn Check, tier: Tier) -> i32 {
                 match (status, parsed) {
                     (Some(st), Some(res)) if st.success() => merged.merge(res),
                     (None, _) => {
-                        inconclusive.push(format!("worker {} exceeded its {} s watchdog and was stopped", r.kind, plan.shard_timeout_s));
+                        // keep the case that was in flight so the hang can be looked at by hand
+                        let tape: Option<Vec<Vec<u32>>> = std::fs::read(&r.inflight).ok().and_then(|b| serde_json::from_slice(&b).ok());
+                        let mut note = String::new();
+                        if let Some(t) = tape {
+                            let v = ViolationRec { signature: format!("{id}/watchdog"), message: "case in flight when the watchdog stopped the worker (inconclusive, not a violation)".into(), tape: Some(t), params: None, sample: Value::Null };
+                            let p = write_replay(&format!("{id}-inflight"), seed, &v);
+                            note = format!("; case in flight saved to {}", p.display());
+                        }
+                        inconclusive.push(format!("worker {} exceeded its {} s watchdog and was stopped{note}", r.kind, plan.shard_timeout_s));
                     }
                     (Some(st), _) => {
                         // abnormal exit: attribute to the case in flight
